@@ -567,7 +567,7 @@ def run(c):
     res = build_and_run(cases, good, 'gcc', ['-O0'], 'gcc')
     mark('compiled and run')
     # sanitizer builds: all in thorough, a sample in quick
-    san_idx = good[:ncorpus] + good[ncorpus::(3 if c.tier == 'thorough' else 20)]
+    san_idx = good[:ncorpus] + good[ncorpus::(8 if c.tier == 'thorough' else 20)]
     if c.tier == 'thorough' and shutil.which('clang'):
         san = build_and_run(cases, san_idx, 'clang', ['-O1', '-g', '-fsanitize=address,undefined', '-fno-sanitize-recover=undefined'], 'asan',
                             env=dict(os.environ, ASAN_OPTIONS='detect_leaks=0'))
